@@ -26,7 +26,7 @@ from harness import lib
 from harness.lib import CaseFile, F, qlit, qlist
 from harness.props.c20 import goal_total, qfl, rl, tolq
 
-MODEL_TARGETS = ["gen/HxDispatch.vo", "gen/Scalar.vo", "model/Area.vo"]
+MODEL_TARGETS = ["gen/HxDispatch.vo", "gen/Scalar.vo", "model/Area.vo", "model/TDF.vo"]
 USES_REALS = True
 ALLOWED_AXIOMS = []
 RULE = ("e2e: 2..6 streams, temperatures multiples of 10 in [20, 300), CP in {0.5,..,2}, contributions in {2.5, 5, 10} (strictly positive), "
@@ -42,7 +42,7 @@ ASSUMPTIONS = ["LMTD values entering the rational area sums are floats produced 
                "floats are exact reals in the cost laws; `**` with a real exponent is Rpower (bases are positive in the theorems)",
                "the exchanger-count target is not part of the property statement's clauses and is only used as the N of the cost law"]
 TRUSTED = ["Coq Interval tactic (cost samples and cost predicate)", "wrapping get_area_targets in the running process to capture its arguments"]
-HDR = ("From OP Require Import gen.Consts model.Base model.Area.\nRequire Import Coq.QArith.QArith.\nLocal Open Scope Q_scope.")
+HDR = ("From OP Require Import gen.Consts model.Base model.Area model.TDF.\nRequire Import Coq.QArith.QArith.\nLocal Open Scope Q_scope.")
 QMIN = Fr(1, 10 ** 9)
 
 
@@ -266,7 +266,8 @@ def run_problem(inp):
     return dict(hot=hot, cold=cold, iv=iv, lm_spec=lm_spec, Hhb=list(Hh0), Hcb=list(Hc0), T=list(T), Rh=list(Rh), Rc=list(Rc),
                 dh=list(tdf["dh_vals"]), R=list(R), d1=list(tdf["delta_T1"]), d2=list(tdf["delta_T2"]), raw2=list(raw2),
                 th1=list(tdf["t_h1"]), th2=list(tdf["t_h2"]), tc1=list(tdf["t_c1"]), tc2=list(tdf["t_c2"]),
-                lm_own=lm_own, lm_raw=lm_raw, area=area, reported=rep, cost_ok=cost_ok)
+                lm_own=lm_own, lm_raw=lm_raw, area=area, reported=rep, cost_ok=cost_ok,
+                tdf_in=[list(map(float, x)) for x in (Th, Hh2, Tc, Hc2)], hv=list(tdf["h_vals"]))
 
 
 def seg_list(segs):
@@ -283,9 +284,14 @@ def mapR_expr(o):
 
 
 def e2e_expr(o):
-    return (f"judge_e2e {qfl(o['T'])} {qfl(o['Rh'])} {qfl(o['Rc'])} {qfl(o['th1'])} {qfl(o['th2'])} {qfl(o['tc1'])} {qfl(o['tc2'])} {qfl(o['R'])} "
-            f"{seg_list(o['hot'])} {seg_list(o['cold'])} {qfl(o['lm_spec'])} {qfl(o['Hhb'])} {qfl(o['Hcb'])} {qfl(o['dh'])} "
-            f"{qfl(o['d1'])} {qfl(o['d2'])} {qfl(o['raw2'])} {qfl(o['lm_own'])} {qfl(o['lm_raw'])} {qlit(o['area'])}")
+    """judge_e2e_tdf: the TDF model recomputes the interval data from the captured curves (first two numbers of the verdict),
+    then judge_e2e on the implementation's interval data"""
+    ti = o["tdf_in"]
+    return (f"judge_e2e_tdf {qfl(ti[0])} {qfl(ti[1])} {qfl(ti[2])} {qfl(ti[3])} "
+            f"{qfl(o['hv'])} {qfl(o['dh'])} {qfl(o['th1'])} {qfl(o['th2'])} {qfl(o['tc1'])} {qfl(o['tc2'])} {qfl(o['d1'])} {qfl(o['d2'])} "
+            f"{qfl(o['T'])} {qfl(o['Rh'])} {qfl(o['Rc'])} {qfl(o['R'])} "
+            f"{seg_list(o['hot'])} {seg_list(o['cold'])} {qfl(o['lm_spec'])} {qfl(o['Hhb'])} {qfl(o['Hcb'])} "
+            f"{qfl(o['raw2'])} {qfl(o['lm_own'])} {qfl(o['lm_raw'])} {qlit(o['area'])}")
 
 
 KINDS = {(3, 1): ("balanced-spans-differ", "balanced hot and cold composite curves have different enthalpy spans"),
@@ -297,7 +303,10 @@ KINDS = {(3, 1): ("balanced-spans-differ", "balanced hot and cold composite curv
          (2, 1): ("area-sum-model-mismatch", "get_area_targets is not the sum over its own intervals of duty x resistance / LMTD"),
          (2, 2): ("area-harness-lmtd-list", "specification LMTD list malformed (harness / model disagreement on the intervals)"),
          (2, 3): ("area-harness-lmtd-bounds", "an LMTD value lies outside [min, mean] of its interval's end differences"),
-         (2, 4): ("area-resistance-map-model-mismatch", "_map_interval_resistances_to_tdf differs from the model")}
+         (2, 4): ("area-resistance-map-model-mismatch", "_map_interval_resistances_to_tdf differs from the model"),
+         (2, 5): ("tdf-model-mismatch", "get_temperature_driving_forces on the captured balanced curves differs from the model (model/TDF.v)")}
+TDF_ARRAYS = {1: "h_vals", 2: "dh_vals", 3: "t_h1", 4: "t_h2", 5: "t_c1", 6: "t_c2", 7: "delta_T1", 8: "delta_T2", 9: "error / no error", 10: "different error"}
+_TDF_E2E = []     # (curve pair, observation) of every end-to-end case of this run, re-used by the tdf suite
 
 
 def judge_problems(ctx, probs, suite):
@@ -312,7 +321,9 @@ def judge_problems(ctx, probs, suite):
             cf.add(e2e_expr(o))
     out = [[None, o] for o in obs]
     for i, v in zip(idx, cf.run()):
-        out[i][0] = v
+        # v = [t0; t1] ++ e2e verdict; a model mismatch of the driving-force stage outranks the area verdict
+        obs[i]["tdf_verdict"] = v[:2]
+        out[i][0] = [2, 5, v[1]] if v[0] == 2 else v[2:]
     return out
 
 
@@ -354,6 +365,8 @@ def e2e_suite(ctx):
             code, kind, what = "error", "area-targeting-raises", "pinch_analysis_service raised with DO_AREA_TARGETING: " + o["error"]
         else:
             ctx.count(f"e2e_intervals_{min(len(o['iv']), 12)}")
+            ctx.count("e2e_tdf_model_" + {0: "agrees", 1: "not_compared", 2: "differs"}.get(o["tdf_verdict"][0], "unknown"))
+            _TDF_E2E.append((o["tdf_in"], dict(h=o["hv"], dh=o["dh"], th1=o["th1"], th2=o["th2"], tc1=o["tc1"], tc2=o["tc2"], d1=o["d1"], d2=o["d2"])))
             if len(o["hot"]) >= 2 and len(o["cold"]) >= 2 and len(o["iv"]) >= 4:
                 ctx.nontrivial_case(json.dumps(p, sort_keys=True))
             ctx.sample(dict(suite="e2e", streams=len(p["streams"]), utilities=len(p["utilities"]), area=o["area"], spec_intervals=len(o["iv"]),
@@ -379,7 +392,7 @@ def e2e_suite(ctx):
         small = shrink_problem(ctx, p, code)
         (v2, o2), = judge_problems(ctx, [small], "e2e_final")
         outp = dict(error=o2["error"]) if "error" in o2 else dict(
-            area=o2["area"], verdict=v2, spec_intervals=[[float(x) for x in i] for i in o2["iv"]], spec_lmtd=o2["lm_spec"],
+            area=o2["area"], verdict=v2, tdf_model_verdict=o2.get("tdf_verdict"), tdf_curves=o2["tdf_in"], spec_intervals=[[float(x) for x in i] for i in o2["iv"]], spec_lmtd=o2["lm_spec"],
             own_intervals=dict(dh=o2["dh"], R=o2["R"], delta_T1=o2["d1"], delta_T2=o2["d2"], raw_delta_T2=o2["raw2"], lmtd=o2["lm_own"]),
             area_spec=sum(float(q) * float(R) / l for (q, R, _, _), l in zip(o2["iv"], o2["lm_spec"])),
             area_without_block=sum(q * (r if r > 1e-6 else 1.0) / l for q, r, l in zip(o2["dh"], o2["R"], o2["lm_raw"])))
@@ -387,6 +400,169 @@ def e2e_suite(ctx):
                  shrunk_from=len(p["streams"]) + len(p["utilities"]))
     ctx.extra["e2e_kind_counts"] = seen
     ctx.suite("e2e", cases=len(probs), agree=agree, mismatch=mism, property_false=bad, fragile_skipped=0)
+
+
+# ------------------------------------------------------------------ get_temperature_driving_forces, stage level
+def call_tdf(Th, Hh, Tc, Hc, min_dT):
+    """observation of the real function: dict of arrays or dict(err=code, msg=...)"""
+    import numpy as np
+    from OpenPinch.analysis.temperature_driving_force import get_temperature_driving_forces
+    try:
+        r = get_temperature_driving_forces(np.array(Th, dtype=float), np.array(Hh, dtype=float), np.array(Tc, dtype=float),
+                                           np.array(Hc, dtype=float), min_dT)
+    except ValueError as e:
+        m = str(e)
+        code = 1 if "same length" in m else 2 if "cannot be empty" in m else 3 if "balanced" in m else 9
+        return dict(err=code, msg=m[:80])
+    except Exception as e:  # noqa: BLE001
+        return dict(err=9, msg=f"{type(e).__name__}: {e}"[:80])
+    out = dict(h=list(map(float, r["h_vals"])), dh=list(map(float, r["dh_vals"])), th1=list(map(float, r["t_h1"])), th2=list(map(float, r["t_h2"])),
+               tc1=list(map(float, r["t_c1"])), tc2=list(map(float, r["t_c2"])), d1=list(map(float, r["delta_T1"])), d2=list(map(float, r["delta_T2"])))
+    if any(x != x or abs(x) == float("inf") for a in out.values() for x in a):
+        return dict(err=9, msg="non-finite value returned")
+    return out
+
+
+def tdf_expr(case, o):
+    Th, Hh, Tc, Hc, m = case
+    obs = (f"(ObsErr {o['err']}%Z)" if "err" in o else
+           "(ObsOk " + " ".join(qfl(o[k]) for k in ("h", "dh", "th1", "th2", "tc1", "tc2", "d1", "d2")) + ")")
+    return f"judge_tdf {qlit(m)} {qfl(Th)} {qfl(Hh)} {qfl(Tc)} {qfl(Hc)} {obs}"
+
+
+def gen_curve(rng, pool, span, style):
+    """ascending (H, T) curve from 0 to span; plateaus = repeated H with a temperature jump (or a repeated point)"""
+    inner = sorted(rng.sample(pool, min(len(pool), rng.randint(0, 4))))
+    hs = [0.0] + [h for h in inner if 0 < h < span] + [span]
+    H, T = [], []
+    t = rng.choice([20.0, 35.25, 60.0, 172.4])
+    for k, h in enumerate(hs):
+        reps = 1
+        if style != "plain" and rng.random() < (0.45 if style == "jumps" else 0.2):
+            reps = rng.choice([2, 2, 2, 3, 4])
+        for j in range(reps):
+            H.append(h)
+            T.append(t)
+            if j + 1 < reps:
+                t += rng.choice([0.0, 5.0, 12.5, 40.0])           # vertical jump (0.0: repeated point)
+        t += rng.choice([0.0, 2.5, 10.0, 10.0, 30.0, 7.75])       # 0.0: isothermal segment
+    return H, T
+
+
+def gen_tdf_case(rng):
+    span = rng.choice([10.0, 25.5, 56.2, 105.0, 1.0])
+    pool = [span * k / 8 for k in range(1, 8)] + [2.5, 5.0, 7.5, 12.25]
+    style = rng.choice(["plain", "plateaus", "jumps", "jumps"])
+    Hh, Th = gen_curve(rng, pool, span, style)
+    Hc, Tc = gen_curve(rng, pool, span, rng.choice(["plain", "plateaus", "jumps"]))
+    Th = [t + rng.choice([10.0, 20.0, 40.0]) for t in Th]
+    k = rng.random()
+    if k < 0.08:                       # unequal spans (guard) / spans equal within tol
+        d = rng.choice([1.0, 0.5, 2.0 ** -21, 3e-6, -1.0])
+        Hc = [h if i + 1 < len(Hc) else h + d for i, h in enumerate(Hc)]
+    elif k < 0.12:                     # empty (guard)
+        if rng.random() < 0.5:
+            Hh, Th = [], []
+        else:
+            Hc, Tc = [], []
+    elif k < 0.17:                     # length mismatch (guard)
+        if rng.random() < 0.5:
+            Th = Th[:-1]
+        else:
+            Hc = Hc + [Hc[-1] if Hc else 0.0]
+    elif k < 0.22:                     # single-point curves
+        Hh, Th = [0.0], [100.0]
+        if rng.random() < 0.5:
+            Hc, Tc = [0.0], [20.0]
+    if rng.random() < 0.3:             # offset (cascade not starting at zero), incl. offsets below / at tol
+        off = rng.choice([100.0, -37.5, 2.0 ** -22, 3e-7, 1e-6, 0.015625])
+        Hh = [h + off for h in Hh]
+    if rng.random() < 0.25:
+        off = rng.choice([50.0, -12.5, 2.0 ** -22])
+        Hc = [h + off for h in Hc]
+    if rng.random() < 0.7:             # real usage passes both curves top-down
+        Hh, Th = Hh[::-1], Th[::-1]
+    if rng.random() < 0.7:
+        Hc, Tc = Hc[::-1], Tc[::-1]
+    return (Th, Hh, Tc, Hc, rng.choice([0.0, 0.0, 0.0, 2.5, 5.0]))
+
+
+TDF_CORPUS = [
+    # hot jump at the top end, cold repeated point inside: the interior hot value is interpolated towards the shifted plateau
+    ([100.0, 110.0, 150.0], [0.0, 10.0, 10.0], [20.0, 60.0, 60.0, 90.0], [0.0, 5.0, 5.0, 10.0], 0.0),
+    # vertical jumps on both curves at the same enthalpy
+    ([100.0, 110.0, 150.0, 160.0], [0.0, 10.0, 10.0, 20.0], [20.0, 55.0, 75.0, 90.0], [0.0, 10.0, 10.0, 20.0], 0.0),
+    # plateau of four points (three empty temperature rows), top-down orientation, offset cascade
+    ([300.1, 300.0, 280.0, 260.0, 240.0, 180.0], [205.0, 190.0, 190.0, 190.0, 190.0, 100.0], [290.0, 280.0, 190.0, 60.0], [105.0, 90.0, 90.0, 0.0], 0.0),
+    ([100.0], [0.0], [20.0], [0.0], 0.0),
+    ([], [], [20.0, 30.0], [0.0, 5.0], 0.0),
+    ([100.0, 120.0], [0.0, 5.0, 5.0], [20.0, 30.0], [0.0, 5.0], 0.0),
+    ([100.0, 120.0], [0.0, 6.0], [20.0, 30.0], [0.0, 5.0], 0.0),
+]
+
+
+def judge_tdf_cases(ctx, cases, suite, observed=None):
+    cf = CaseFile(ctx, suite, HDR, shard=25)
+    obs = []
+    for i, c in enumerate(cases):
+        o = observed[i] if observed is not None else call_tdf(*c)
+        obs.append(o)
+        cf.add(tdf_expr(c, o))
+    return list(zip(cf.run(), obs))
+
+
+def shrink_curves(ctx, case, code):
+    """drop one point of either curve at a time while the same verdict persists"""
+    cur = case
+    for _ in range(8):
+        Th, Hh, Tc, Hc, m = cur
+        cands = []
+        for i in range(min(len(Th), len(Hh))):
+            cands.append((Th[:i] + Th[i + 1:], Hh[:i] + Hh[i + 1:], Tc, Hc, m))
+        for i in range(min(len(Tc), len(Hc))):
+            cands.append((Th, Hh, Tc[:i] + Tc[i + 1:], Hc[:i] + Hc[i + 1:], m))
+        if m != 0.0:
+            cands.append((Th, Hh, Tc, Hc, 0.0))
+        if not cands:
+            break
+        res = judge_tdf_cases(ctx, cands, "tdf_shrink")
+        nxt = next((c for c, (v, _) in zip(cands, res) if tuple(v[:2]) == code), None)
+        if nxt is None:
+            break
+        cur = nxt
+    return cur
+
+
+def tdf_suite(ctx):
+    n = ctx.budget(400, 8000)
+    synth = TDF_CORPUS + [gen_tdf_case(ctx.rng) for _ in range(n)]
+    e2e = [(ti[0], ti[1], ti[2], ti[3], 0.0) for ti, _ in _TDF_E2E]
+    res = judge_tdf_cases(ctx, synth, "tdf") + judge_tdf_cases(ctx, e2e, "tdf_e2e", observed=[o for _, o in _TDF_E2E])
+    agree = mism = frag = 0
+    for k, (c, (v, o)) in enumerate(zip(synth + e2e, res)):
+        ctx.evaluations += 1
+        src = "synthetic" if k < len(synth) else "captured"
+        shape = ("guard_%d" % o["err"]) if "err" in o else ("plateau" if any(a == b for H in (c[1], c[3]) for a, b in zip(H, H[1:])) else "plain")
+        ctx.count(f"tdf_{src}_{shape}")
+        if "err" not in o and shape == "plateau" and len(o["h"]) >= 4:
+            ctx.nontrivial_case(("tdf", tuple(map(tuple, c[:4])), c[4]))
+        if v[0] == 0:
+            agree += 1
+        elif v[0] == 1:
+            frag += 1
+            ctx.count("tdf_fragile_reason_%d" % v[1])
+        else:
+            mism += 1
+            if mism <= 2:
+                small = shrink_curves(ctx, c, tuple(v[:2]))
+                (v2, o2), = judge_tdf_cases(ctx, [small], "tdf_final")
+                ctx.fail("tdf-model-mismatch", f"get_temperature_driving_forces differs from the model at {TDF_ARRAYS.get(v2[1], v2[1])} ({src} curves)",
+                         input=dict(T_hot=small[0], H_hot=small[1], T_cold=small[2], H_cold=small[3], min_dT=small[4]), impl_output=o2, suite="tdf",
+                         predicate="judge_tdf: every returned array equals the model's element by element (1e-9), or the same ValueError guard",
+                         shrunk_from=len(c[0]) + len(c[2]))
+    ctx.sample(dict(suite="tdf", curves=dict(T_hot=synth[2][0], H_hot=synth[2][1], T_cold=synth[2][2], H_cold=synth[2][3]), impl=res[2][1]), limit=5)
+    ctx.suite("tdf", cases=len(res), agree=agree, mismatch=mism, property_false=0, fragile_skipped=frag,
+              note=f"{len(synth)} synthetic curve pairs + {len(e2e)} balanced composite curve pairs captured from the end-to-end cases")
 
 
 # ------------------------------------------------------------------ cost
@@ -513,7 +689,7 @@ def cost_suite(ctx):
 
 def run(ctx):
     import time
-    for name, fn in (("balanced", balanced_suite), ("e2e", e2e_suite), ("cost", cost_suite)):
+    for name, fn in (("balanced", balanced_suite), ("e2e", e2e_suite), ("tdf", tdf_suite), ("cost", cost_suite)):
         t0 = time.time()
         try:
             fn(ctx)
@@ -532,5 +708,11 @@ def replay(ctx, data):
         (v, o), = judge_problems(ctx, [inp], "replay")
         o = {k: val for k, val in o.items() if k not in ("hot", "cold", "iv")} if "error" not in o else o
         print(json.dumps(lib.jsonable(dict(verdict=v, meaning=KINDS.get(tuple(v[:2]), ("agree", ""))[0] if v else None, observed=o)), indent=1, default=str))
+    elif data.get("suite") == "tdf":
+        c = (inp["T_hot"], inp["H_hot"], inp["T_cold"], inp["H_cold"], inp.get("min_dT", 0.0))
+        (v, o), = judge_tdf_cases(ctx, [c], "replay")
+        model = lib.coq_eval(ctx, HDR, f"tdf tol {qlit(c[4])} {qfl(c[0])} {qfl(c[1])} {qfl(c[2])} {qfl(c[3])}")
+        print(json.dumps(lib.jsonable(dict(verdict=v, differs_at=TDF_ARRAYS.get(v[1]) if v[0] == 2 else None, implementation=o)), indent=1, default=str))
+        print("model (exact rationals):\n" + model)
     else:
         print(json.dumps(data, indent=1))
